@@ -167,6 +167,14 @@ impl<T> HashSet<T, DefaultHashBuilder> {
     }
 }
 
+#[cfg(feature = "verif-hooks")]
+impl<T, S> HashSet<T, S> {
+    /// Read-only view of the resize state, for external checkers.
+    pub fn verif_state(&self) -> crate::raw::VerifState {
+        self.map.verif_state()
+    }
+}
+
 impl<T, S> HashSet<T, S> {
     /// Returns the number of elements the set can hold without reallocating.
     ///
